@@ -72,3 +72,12 @@ func VerifStapleOCSP(ctx context.Context, cfg OCSPConfig, storage Storage, cert 
 // VerifUpdateOCSPStaples runs one OCSP maintenance pass (what the maintenance goroutine does on
 // every tick of OCSPCheckInterval).
 func VerifUpdateOCSPStaples(ctx context.Context, certCache *Cache) { certCache.updateOCSPStaples(ctx) }
+
+// VerifOnDemandRenewalPending reports whether an obtain or renewal started by a handshake for
+// name is still running (its entry in obtainCertWaitChans exists).
+func VerifOnDemandRenewalPending(name string) bool {
+	obtainCertWaitChansMu.Lock()
+	defer obtainCertWaitChansMu.Unlock()
+	_, ok := obtainCertWaitChans[name]
+	return ok
+}
